@@ -26,8 +26,41 @@ def run(ctx):
     counts = {"ok": 0, "undecided": 0, "violated": 0}
     undecided = []
     instances = {}
+    # ---- screen: every member in scope is constructed and evaluated at its declared optimum and at the centre of its box; a member whose
+    # evaluation raises or is not finite is a verdict of ProblemTrace.tla (clause EvalRaises) and is left out of the certificate searches
+    from ..problems_drv import ProblemRec, families
+    from .c15 import validate as validate_problems
+    fams = families()
+    screen = ProblemRec("c10-screen")
+    bad = set()
+    for fam in sorted(fams):
+        for m in fams[fam][1]:
+            k = screen.construct(fam, m, with_meta=False)
+            p_ = screen.insts[-1][2]
+            if p_ is None:
+                bad.add((fam, m))
+                continue
+            try:
+                opt = [float(t) for t in p_.knownOptimum[0].point.floatVariables]
+                mid = [(float(a) + float(b)) / 2 for a, b in zip(p_.lowerBoundOfFloatVariables, p_.upperBoundOfFloatVariables)]
+            except Exception:      # noqa: BLE001
+                bad.add((fam, m))
+                continue
+            for pt in (opt, mid):
+                screen.eval(k, pt, "obj")
+            screen.insts[-1] = (fam, m, "evaluated")       # (the object itself is not kept alive: thousands of members)
+    sfails, _sstats = validate_problems(ctx, [screen], "c10screen")
+    for f in sfails:
+        if f["clause"] in ("EvalRaises", "ConstructRaises"):
+            fam, m, _ = screen.insts[f["event"]["inst"] - 1]
+            if (fam, m) not in bad:
+                bad.add((fam, m))
+        if f["clause"] in ("EvalRaises", "ConstructRaises", "HolderNotReturned", "PointModified"):
+            fam, m, _ = screen.insts[f["event"]["inst"] - 1]
+            report(ctx, "C10 family=%s member=%d clause=EvaluationRaises" % (fam, m),
+                   {"family": fam, "member": m, "clause": f["clause"], "event": {k_: v_ for k_, v_ in f["event"].items() if k_ != "meta"}})
     # ---- Hill, Shekel (and the one-dimensional Rastrigin function)
-    rows = [("Hill", k) for k in range(1000)] + [("Shekel", k) for k in range(1000)]
+    rows = [(f_, k) for f_ in ("Hill", "Shekel") for k in range(1000) if (f_, k) not in bad]
     jobs = [(i + 1, fam, fn, TV, DELTA_REL, 1e-3, ("min",), None, {"tvlow_rel": TVLOW_REL, "declared": True}) for i, (fam, fn) in enumerate(rows)]
     jobs.append((900001, "Rastrigin", 1, TV, DELTA_REL, 1e-3, ("min",), None, {"tvlow_rel": TVLOW_REL}))
     # binding demonstration: a declared optimum moved by 1% of the range / lowered by 5e-3 must be refuted
@@ -54,6 +87,7 @@ def run(ctx):
     fns = [(d, k) for d in (2, 3, 4, 5) for k in range(1, 101)]
     if qk:
         fns = [(d, k) for d in (2, 3, 4, 5) for k in rng.sample(range(1, 101), 12)]
+    fns = [(d, k) for (d, k) in fns if ("GKLS%d" % d, k) not in bad]
     grecs = [gkls_record(d, k, rng, None, npts=10) for (d, k) in fns]
     for v in check_gkls(ctx, grecs, "c10gkls"):
         instances["GKLS"] = instances.get("GKLS", 0) + 1
@@ -62,7 +96,8 @@ def run(ctx):
         for cl in bad:
             report(ctx, "C10 family=GKLS dim=%d clause=%s" % (v["dim"], cl), {"family": "GKLS", "dimension": v["dim"], "number": v["nf"], "clause": cl})
     # ---- XSquared, Rastrigin, Shekel4
-    brecs = [xsquared_record(n, rng) for n in range(1, 9)] + [rastrigin_record(n, rng) for n in range(1, 9)] + [shekel4_record(k, rng) for k in (1, 2, 3)]
+    brecs = [xsquared_record(n, rng) for n in range(1, 9) if ("XSquared", n) not in bad] + \
+            [rastrigin_record(n, rng) for n in range(1, 9) if ("Rastrigin", n) not in bad] + [shekel4_record(k, rng) for k in (1, 2, 3) if ("Shekel4", k) not in bad]
     path = ctx.path("c10bench.ndjson")
     write_ndjson(path, [{k: v for k, v in r.items() if not k.startswith("_")} for r in brecs])
     res = run_tlc("Bench", "SPECIFICATION Spec\nCHECK_DEADLOCK FALSE\n", env={"TRACE_FILE": path}, workers=1, timeout=3000, xmx="4g")
@@ -84,7 +119,14 @@ def run(ctx):
             report(ctx, "C10 family=%s member=%d clause=%s" % (fam, v["id"], cl), {"family": fam, "member": v["id"], "clause": cl})
     # ---- Grishagin, StronginC3
     from .c10_2d import run_2d
-    two = run_2d(ctx, counts, undecided, instances)
+    try:
+        two = run_2d(ctx, counts, undecided, instances)
+    except TLCError:
+        raise
+    except Exception as ex:      # noqa: BLE001
+        if not any(f_ in ("Grishagin", "StronginC3") for (f_, _m) in bad):
+            raise
+        two = {"skipped": "a member of these families failed the evaluation screen (reported): %s" % type(ex).__name__}
     cov = {
         "explanation": "each instance is decided by a certificate checked by TLC in exact arithmetic: Cert1D.tla (Hill, Shekel, 1-D Rastrigin), GKLSSpec.tla "
                        "(GKLS: global minimum decided from the parameters), Bench.tla (XSquared exact; Rastrigin separability; Shekel4 branch-and-bound tree "
